@@ -21,7 +21,7 @@ from props import c14 as H
 LEVEL = 'other'
 
 EPS = Fr(common.EPS)
-C_FFT = 256        # |getModes - dense DFT| / (eps * sum|x_j|)   (FFTPACK is a contract)
+C_FFT = 2048        # |getModes - dense DFT| / (eps * sum|x_j|)   (FFTPACK is a contract)
 C_REAL = 1 << 14   # |imag phi| / (eps * gain * max|rho|)
 C_ZEROEQ = 1 << 14
 
@@ -371,7 +371,7 @@ def run(chk):
     drv = common.LeanDriver('C14.lean')
     stats = {'fft': 0.0, 'roundtrip': 0.0, 'oracle': 0.0, 'residual': 0.0, 'imag': 0.0}
     try:
-        for it in range(chk.n(28, 150)):
+        for it in range(chk.n(20, 150)):
             one_setup(chk, drv, it, stats)
     finally:
         drv.close()
